@@ -308,8 +308,9 @@ def tasks(tier):
     ov = stubs.backtest_mode()
     ts = [Task('classify', t_classify, extra=x, overrides=dict(ov))]
     for pt in ('long', 'short'):
-        ts.append(Task(f'ledger.{pt}.open', t_ledger(pt, 'open'), extra=dict(x), overrides=dict(ov)))
-        ts.append(Task(f'ledger.{pt}.fill', t_ledger(pt, 'fill'), extra=dict(x), overrides=dict(ov)))
+        # nonlinear identities: a generous per-query budget (an idle machine needs about 2 s; verdicts must not flip under load)
+        ts.append(Task(f'ledger.{pt}.open', t_ledger(pt, 'open'), extra=dict(x), overrides=dict(ov), prove_timeout_ms=240000))
+        ts.append(Task(f'ledger.{pt}.fill', t_ledger(pt, 'fill'), extra=dict(x), overrides=dict(ov), prove_timeout_ms=240000))
         ts.append(Task(f'dispatch.{pt}', t_dispatch(pt), extra=dict(x), overrides=dict(ov)))
         ts.append(Task(f'trade.{pt}', t_trade_fields(pt), extra=dict(x), overrides=dict(ov)))
     for kind in ('futures', 'spot'):
